@@ -19,7 +19,7 @@ from ..ref.refeval import RefEval, Unset, describe_diff, descendants, same, shar
 
 PROPERTY = "C01"
 TIERS = {
-    "quick": {"runs": 1600, "budget_s": 100, "chunk": 25},
+    "quick": {"runs": 4000, "budget_s": 100, "chunk": 25},
     "thorough": {"runs": 60000, "budget_s": 900, "chunk": 50},
 }
 REQUIRED_PROBES = {
